@@ -276,7 +276,14 @@ impl<'a> PGen<'a> {
             }
         }
         match t {
-            T::LX => match self.rng.below(6) {
+            T::LX => match self.rng.below(7) {
+                6 => {
+                    // characters of one string looked up by index several times (in range, past
+                    // the end, negative), the string written out each time
+                    let sub = if self.rng.chance(1, 2) { self.expr(T::Str, d1) } else { st(*self.rng.pick(&["héllo wörld", "日本語のテキスト", "naïve café", "a😀b😀c", "ÅÅÅÅÅÅ", "plain ascii"])) };
+                    let n = self.rng.range(2, 5);
+                    E::List((0..n).map(|_| idx(sub.clone(), num(self.rng.range(-3, 14)))).collect())
+                }
                 0 => self.leaf(T::LX),
                 1 => self.unordered_list(d1),
                 2 => E::List(vec![E::Spread(Box::new(self.expr(T::LX, d1))), self.any(d1)]),
@@ -373,6 +380,7 @@ impl<'a> PGen<'a> {
                 6 => call(id("typeof"), vec![self.any(d1)]),
                 7 => call(id("format"), vec![st("{}-{}"), self.any(d1), self.expr(T::Num, d1)]),
                 8 => idx(self.expr(T::LStr, d1), num(self.rng.range(-1, 2))),
+                9 if self.rng.chance(1, 2) => bin("??", idx(self.expr(T::Str, d1), num(self.rng.range(-3, 14))), st("none")),
                 9 => call(id("replace"), vec![self.expr(T::Str, d1), st("a"), st("bb")]),
                 _ => cond(self.expr(T::Bool, d1), self.expr(T::Str, d1), self.expr(T::Str, d1)),
             },
@@ -689,6 +697,26 @@ impl<'a> PGen<'a> {
             8 if allow_output && !self.vars.is_empty() => {
                 let n = self.rng.pick(&self.vars).0.clone();
                 vec![(Stmt::Output(n, None), "output-name")]
+            }
+            11 => {
+                // a non-ASCII string bound to a name and then indexed several times in one
+                // expression: past the end first, then back inside (any lookup is a pure
+                // function of the string and the index, whatever was looked up before)
+                let n = self.fresh();
+                let text = *self.rng.pick(&["héllo", "日本語のテキスト", "naïve café", "a😀b😀c", "ÅÅÅÅÅÅ", "żółć gęślą jaźń"]);
+                let chars = text.chars().count() as i64;
+                self.vars.push((n.clone(), T::Str));
+                let mut lookups = vec![];
+                let t = chars + self.rng.range(0, 5);
+                lookups.push(idx(id(&n), num(t)));
+                let lo = (t + 1) / 2;
+                if lo < chars {
+                    lookups.push(idx(id(&n), num(self.rng.range(lo, chars))));
+                }
+                for _ in 0..self.rng.range(0, 3) {
+                    lookups.push(idx(id(&n), num(self.rng.range(-2, chars + 3))));
+                }
+                vec![(Stmt::Expr(assign(&n, st(text))), "bind"), (Stmt::Expr(E::List(lookups)), "bare-expr")]
             }
             9 | 10 => {
                 // a name bound by an assignment nested inside a statement that is not itself an
